@@ -301,10 +301,11 @@ func (g *gen) svgElem(depth int, hidden bool) string {
 		attrs += fmt.Sprintf(` opacity="%v"`, float64(g.r.Range(0, 4))/4)
 	}
 	if g.r.P(1, 10) {
-		attrs += ` clip-path="url(#cp)"`
+		attrs += fmt.Sprintf(` clip-path="url(#%s)"`, rng.Pick(g.r, "cp", "cp", "cp0", "cp1", "cp2", "cp3", "cp4", "cp5", "cp6", "cp7"))
+		g.feat("svg-clip-path")
 	}
 	if g.r.P(1, 12) {
-		attrs += ` mask="url(#mk)"`
+		attrs += fmt.Sprintf(` mask="url(#%s)"`, rng.Pick(g.r, "mk", "mk", "mk0", "mk1", "mk2"))
 	}
 	if g.r.P(1, 12) {
 		attrs += rng.Pick(g.r, ` display="none"`, ` visibility="hidden"`)
@@ -427,6 +428,26 @@ func (g *gen) svgElem(depth int, hidden bool) string {
 }
 
 // svgURI is a small SVG image as a data: URI (for <img> and backgrounds), nodes uniquely coloured
+// clip paths and masks whose children draw nothing (zero-size, hidden, empty): the clip must still be preceded by a path
+const emptyClipDefs = `<clipPath id="cp0"><rect x="0" y="0" width="0" height="20"/></clipPath>` +
+	`<clipPath id="cp1"><circle cx="5" cy="5" r="0"/></clipPath>` +
+	`<clipPath id="cp2"><rect width="10" height="10" visibility="hidden"/></clipPath>` +
+	`<clipPath id="cp3"><g></g></clipPath>` +
+	`<clipPath id="cp4"><path d=""/></clipPath>` +
+	`<clipPath id="cp5"></clipPath>` +
+	`<clipPath id="cp6"><rect width="0%" height="50%"/><ellipse rx="0" ry="3"/></clipPath>` +
+	`<clipPath id="cp7" clipPathUnits="objectBoundingBox"><polygon points=""/></clipPath>` +
+	`<mask id="mk0"><rect x="0" y="0" width="0" height="30" fill="#fefe01"/></mask>` +
+	`<mask id="mk1"></mask>` +
+	`<mask id="mk2"><circle r="0" fill="#fefe02"/><g fill="#fefe03"/></mask>`
+
+// the mask children above are painted: their (reserved) colours attribute a Paint on an empty path to them (KF14-1)
+func (g *gen) registerEmptyDefs() {
+	g.spec.SvgKinds[[3]uint8{0xfe, 0xfe, 0x01}] = "shape-empty"
+	g.spec.SvgKinds[[3]uint8{0xfe, 0xfe, 0x02}] = "shape-empty"
+	g.spec.SvgKinds[[3]uint8{0xfe, 0xfe, 0x03}] = "g"
+}
+
 // dashAttrs: a stroked shape with a dash array (incl. arrays that sum to zero, in mixed units) and a dash offset
 // (negative, zero, huge): SetDash must receive finite numbers
 func (g *gen) dashAttrs() string {
@@ -449,7 +470,18 @@ func (g *gen) svgURI() string {
 		dash = strings.NewReplacer(`"`, "%22", "#", "%23", "%", "%25").Replace(g.dashAttrs())
 		g.feat("svg-dash")
 	}
-	return fmt.Sprintf("data:image/svg+xml,<svg xmlns=%%22http://www.w3.org/2000/svg%%22 width=%%2210%%22 height=%%2210%%22 fill=%%22%%23%s%%22><circle cx=%%225%%22 cy=%%225%%22 r=%%224%%22 fill=%%22%%23%s%%22%s/></svg>", f1[1:], f2[1:], dash)
+	defs := ""
+	if g.r.P(1, 3) {
+		enc := strings.NewReplacer(`"`, "%22", "#", "%23", "%", "%25")
+		defs = enc.Replace("<defs>" + emptyClipDefs + "</defs>")
+		g.registerEmptyDefs()
+		dash += enc.Replace(fmt.Sprintf(` clip-path="url(#%s)"`, rng.Pick(g.r, "cp0", "cp1", "cp2", "cp3", "cp4", "cp5", "cp6", "cp7")))
+		if g.r.P(1, 3) {
+			dash += enc.Replace(fmt.Sprintf(` mask="url(#%s)"`, rng.Pick(g.r, "mk0", "mk1", "mk2")))
+		}
+		g.feat("svg-clip-path")
+	}
+	return fmt.Sprintf("data:image/svg+xml,<svg xmlns=%%22http://www.w3.org/2000/svg%%22 width=%%2210%%22 height=%%2210%%22 fill=%%22%%23%s%%22>%s<circle cx=%%225%%22 cy=%%225%%22 r=%%224%%22 fill=%%22%%23%s%%22%s/></svg>", f1[1:], defs, f2[1:], dash)
 }
 
 func (g *gen) svg() string {
@@ -472,10 +504,11 @@ func (g *gen) svg() string {
 	fmt.Fprintf(&b, `<svg width="%d" height="%d"%s%s fill="%s"%s>`, w, h, vb, par, fill, g.maybeID())
 	if g.r.P(2, 3) {
 		b.WriteString(`<defs><linearGradient id="gr"><stop offset="0" stop-color="red"/><stop offset="1" stop-color="blue"/></linearGradient>` +
-			`<clipPath id="cp"><rect x="0" y="0" width="20" height="20"/></clipPath>` +
+			`<clipPath id="cp"><rect x="0" y="0" width="20" height="20"/></clipPath>` + emptyClipDefs +
 			`<mask id="mk"><rect x="0" y="0" width="30" height="30" fill="white"/></mask>` +
 			`<marker id="mr" markerWidth="4" markerHeight="4" refX="2" refY="2" overflow="hidden"><circle cx="2" cy="2" r="2"/></marker>` +
 			`<symbol id="sym"><rect width="5" height="5"/></symbol></defs>`)
+		g.registerEmptyDefs()
 	}
 	for i, m := 0, g.r.Range(0, 4); i < m; i++ {
 		b.WriteString(g.svgElem(0, false))
@@ -578,7 +611,7 @@ func (g *gen) block(depth int) string {
 	}
 }
 
-var metaTitles = []string{"A title", "Café &amp; bar", "x", "Tïtre 中文", "a  b"}
+var metaTitles = []string{"A title", "Café &amp; bar", "x", "Tïtre 中文", "a  b", " lead", "trail ", "\ttab\t", "\nline\n", "a\r\nb", "\fff\f", "\u00a0nb\u00a0", " ", "\t\n", "", "  two  words  "}
 
 func unent(s string) string { return strings.ReplaceAll(s, "&amp;", "&") }
 
@@ -590,35 +623,46 @@ func genDoc(r *rng.R) *docSpec {
 		g.idPool = append(g.idPool, fmt.Sprintf("id%c", 'a'+i))
 	}
 	var head strings.Builder
-	// metadata
-	for i, n := 0, r.Range(0, 2); i < n; i++ {
+	// metadata.  The expected values pin what the code does today with the HTML text (the property: "forwarded
+	// unchanged"): <title> = the raw text of the first <title> whose text is not the empty string (no stripping,
+	// no collapsing; a whitespace-only first title IS the title); description / generator = the raw content of the
+	// first such <meta> with a non-empty content; authors = every content, raw; keywords = split at commas, HTML
+	// whitespace (space, tab, LF, FF, CR) stripped, first occurrence kept.  The HTML tokenizer turns CRLF and CR into LF.
+	norm := func(t string) string { return strings.ReplaceAll(strings.ReplaceAll(unent(t), "\r\n", "\n"), "\r", "\n") }
+	for i, n := 0, r.Range(0, 3); i < n; i++ {
 		t := rng.Pick(r, metaTitles...)
 		fmt.Fprintf(&head, "<title>%s</title>", t)
 		if spec.Title == "" {
-			spec.Title = unent(t)
+			spec.Title = norm(t)
 		}
 		g.feat("title")
+		if t != strings.TrimSpace(t) || strings.ContainsAny(t, "\t\n\r\f\u00a0") {
+			g.feat("title-whitespace")
+		}
+	}
+	ws := func(v string) string { // the value with some whitespace around / inside
+		return rng.Pick(r, "", "", "", " ", "\t", "\n", "\r\n", "\f", "\u00a0") + v + rng.Pick(r, "", "", "", " ", "\t ", "\n", "\r\n", "\f", "\u00a0")
 	}
 	for i, n := 0, r.Range(0, 4); i < n; i++ {
 		name := rng.Pick(r, "author", "Author", "description", "generator", "keywords", "KEYWORDS", "dcterms.created", "dcterms.modified", "viewport", "")
 		var content string
 		switch strings.ToLower(name) {
 		case "author":
-			content = rng.Pick(r, "Ann", "Bob &amp; Co", "")
-			spec.Authors = append(spec.Authors, unent(content))
+			content = ws(rng.Pick(r, "Ann", "Bob &amp; Co", "", "A  B"))
+			spec.Authors = append(spec.Authors, norm(content))
 		case "description":
-			content = rng.Pick(r, "A description", "d2")
+			content = ws(rng.Pick(r, "A description", "d2", "", "two\nlines"))
 			if spec.Desc == "" {
-				spec.Desc = content
+				spec.Desc = norm(content)
 			}
 		case "generator":
-			content = rng.Pick(r, "gen 1.0", "g2")
+			content = ws(rng.Pick(r, "gen 1.0", "g2", ""))
 			if spec.Gen == "" {
-				spec.Gen = content
+				spec.Gen = norm(content)
 			}
 		case "keywords":
-			content = rng.Pick(r, "a, b ,c", "b,d", "x", " , y")
-			for _, k := range strings.Split(content, ",") {
+			content = rng.Pick(r, "a, b ,c", "b,d", "x", " , y", "\ta\t,\nb\r\n,\fc\f", "\u00a0n\u00a0, a", "k  k,k")
+			for _, k := range strings.Split(norm(content), ",") {
 				k = strings.Trim(k, " \t\n\f\r")
 				dup := false
 				for _, o := range spec.Keywords {
@@ -631,7 +675,8 @@ func genDoc(r *rng.R) *docSpec {
 		case "dcterms.created", "dcterms.modified":
 			type dt struct{ s, want string }
 			d := rng.Pick(r, dt{"2011", "2011-01-01T00:00:00Z"}, dt{"2011-04", "2011-04-01T00:00:00Z"}, dt{"2011-04-21", "2011-04-21T00:00:00Z"},
-				dt{"2011-04-21T23:00Z", "2011-04-21T23:00:00Z"}, dt{"2011-04-21T23:00:10+02:00", "2011-04-21T21:00:10Z"}, dt{"not a date", ""})
+				dt{"2011-04-21T23:00Z", "2011-04-21T23:00:00Z"}, dt{"2011-04-21T23:00:10+02:00", "2011-04-21T21:00:10Z"}, dt{"not a date", ""},
+				dt{" \t2011-04-21", "2011-04-21T00:00:00Z"}, dt{"\n2011", "2011-01-01T00:00:00Z"})
 			content = d.s
 			if name == "dcterms.created" && spec.Created == "" {
 				spec.Created = d.want
